@@ -35,7 +35,7 @@ def cases(tier, seed):
     out = []
     for k in range(n):
         writer = "kern1" if rng.random() < 0.7 else "kern2"
-        c = layout_gen.kerning_font(rng, writer)
+        c = layout_gen.kerning_font(rng, writer, lang_first=(k % 8 == 3))
         c.update({"cid": f"c05-{seed}-{k}", "lib": rng.choice(["ufoLib2", "defcon"]), "writers": ["kern", "mark"] if c.get("withMarks") else ["kern"]})
         if k % 5 == 4:
             # the same writer instance then serves one or two other fonts (same options)
